@@ -2,6 +2,8 @@ import CogentModel.Json
 import CogentModel.Model.PairHMM
 import CogentModel.Spec.PairHMM
 import CogentModel.Model.GapMerge
+import CogentModel.Model.Hirschberg
+import CogentModel.Model.ClassicHMM
 open CogentModel CogentModel.PairHMM
 
 def optRat (j : J) : Except String (Option Rat) :=
@@ -42,6 +44,9 @@ def exGapsJ : Except String GapMerge.Gaps → J
   | .ok g => gapsJ g
   | .error e => J.obj [("err", J.str e)]
 
+/-- exact value rounded down to a multiple of 2^-300 (the BEGIN row after ten squarings has ~10^5-bit terms) -/
+def roundRat (q : Rat) : Rat := ((q * ((2 : Rat) ^ 300)).floor : Rat) / ((2 : Rat) ^ 300)
+
 def handle (cmd : String) (j : J) : Except String J :=
   match cmd with
   | "viterbi" => do
@@ -61,6 +66,28 @@ def handle (cmd : String) (j : J) : Except String J :=
     let ms := if loc then prefixScore h mi0 mj0 mp else globalScore h mp
     pure (J.obj [("score", ofOptRat r.score), ("path", pathJ r.path), ("path_score", ofOptRat ps),
                  ("consumed", J.arr [J.ofNat c.1, J.ofNat c.2]), ("model_path_score", ofOptRat ms)])
+  | "hirschberg" => do
+    -- the divide-and-conquer model (split row n/2) vs the full DP model on the same hmm
+    let (h, n, m, _) ← parseHMM j
+    let limit ← (← j.get "limit").toNat
+    let r := hirsch (0 : Rat) (fun x => x / 2) limit n h n m
+    let full := viterbiGlobal h n m
+    let mp := (r.path.getD []).map (·.1)
+    pure (J.obj [("score", ofOptRat r.score), ("path", pathJ r.path), ("full_score", ofOptRat full.score),
+                 ("path_score", ofOptRat (globalScore h mp)), ("consumed", let c := consumedFrom h 0 0 mp; J.arr [J.ofNat c.1, J.ofNat c.2])])
+  | "classic" => do
+    -- probability-space HMM that classic_align_pairwise builds from exp(-d), exp(-e), exp(S)
+    let ed ← (← j.get "ed").toRat
+    let ee ← (← j.get "ee").toRat
+    let es ← toArr (toArr J.toRat) (← j.get "es")
+    let n := es.size
+    let esf : Nat → Nat → Rat := fun a b => (es.getD a #[]).getD b 0
+    let A := ClassicHMM.gapT ed ee
+    let full : Nat → Nat → Rat := ClassicHMM.fullMatrix A
+    let pairs ← (← j.get "pairs").toListOf (J.toPairOf J.toNat J.toNat)
+    pure (J.obj [("T", J.arr ((List.range 5).map fun i => J.arr ((List.range 5).map fun jj => J.ofRat (roundRat (full i jj))))),
+                 ("match", J.arr (pairs.map fun (a, b) => J.ofRat (ClassicHMM.matchProb n esf a b))),
+                 ("gap", J.ofRat (ClassicHMM.gapProb : Rat))])
   | "allpaths" => do
     -- brute force over the spec's explicit path enumeration (tiny inputs only)
     let (h, n, m, loc) ← parseHMM j
